@@ -36,6 +36,11 @@ Proof.
   apply N.compare_eq in E. subst. f_equal. apply IHa. exact H.
 Qed.
 
+Definition optZ_eqb (a b : option Z) : bool :=
+  match a, b with Some x, Some y => Z.eqb x y | None, None => true | _, _ => false end.
+Fixpoint list_eqb {A} (e : A -> A -> bool) (a b : list A) : bool :=
+  match a, b with [], [] => true | x :: a', y :: b' => e x y && list_eqb e a' b' | _, _ => false end.
+
 Definition is_nil {A} (l : list A) : bool := match l with [] => true | _ => false end.
 
 Fixpoint has_prefix (p s : bytes) : bool :=
